@@ -216,6 +216,34 @@ let exec (s : t) (verbose : bool) (f : string array) (obs : string option) : str
            | (OpenOk (d', _), _) -> "ok " ^ id ^ " " ^ dump_of d'
            | (OpenErr (e, _), _) -> "ok " ^ id ^ " err " ^ eerr_name e))
      | (OpenErr (e, _), _) -> "err " ^ eerr_name e)
+  | "crashcontp" ->
+    (* E crashcontp <k> <cut> <cfg 6 fields> <key> <val>: the (cut) crash image is opened, one Put, then
+       close, open, dump, close, open, dump *)
+    let k = int_of_string f.(2) in
+    let mode = match String.split_on_char ':' f.(3) with
+      | ["none"] -> CutNone | ["durable"] -> CutDurable
+      | ["at"; nm; n] -> CutAt (fname_of_str nm, n_of_string n)
+      | _ -> failwith "bad cut" in
+    let c = { c_fsize = n_of_string f.(4); c_sync = n_of_string f.(5); c_bps = n_of_string f.(6);
+              c_io = n_of_string f.(7) } in
+    let evs = List.rev s.all_events in
+    recorder := (fun _ -> ());
+    (match crash_open c evs (nat_of_int k) mode with
+     | (OpenOk (d, kd), _) ->
+       let ((d, e), _) = db_put d (tok_bytes f.(10)) (tok_bytes f.(11)) in
+       (match e with
+        | Some e -> "err put " ^ eerr_name e
+        | None ->
+          let (k2, _) = db_close d kd in
+          (match db_open c k2 with
+           | (OpenOk (d1, k3), _) ->
+             let r1 = dump_of d1 in
+             let (k4, _) = db_close d1 k3 in
+             (match db_open c k4 with
+              | (OpenOk (d2, _), _) -> "ok " ^ r1 ^ " " ^ dump_of d2
+              | (OpenErr (e, _), _) -> "ok " ^ r1 ^ " err " ^ eerr_name e)
+           | (OpenErr (e, _), _) -> "ok err " ^ eerr_name e))
+     | (OpenErr (e, _), _) -> "err " ^ eerr_name e)
   | "dir" ->
     (* leave the current directory (its disk is kept), enter another one *)
     Hashtbl.replace s.disks s.cur s.disk;
